@@ -72,4 +72,68 @@ static int ref_enc(unsigned c, char *d)
 	d[0] = 0xf0 | (c >> 18); d[1] = 0x80 | ((c >> 12) & 0x3f); d[2] = 0x80 | ((c >> 6) & 0x3f); d[3] = 0x80 | (c & 0x3f);
 	return 4;
 }
+
+/* A closed "shell" for the harnesses: generated command lines never reach a real program.  The child that
+ * cmd_make() forked ends up here instead of in execvp(); the handful of commands below is interpreted with raw
+ * system calls (the harnesses wrap read/write), everything else exits with status 127 and no output.
+ * Drive/Ex.lean `builtinPipe` is the same table on the model's side. */
+#include <sys/syscall.h>
+#include <fcntl.h>
+#include <unistd.h>
+#include <sys/stat.h>
+static dev_t verif_stdin_dev; static ino_t verif_stdin_ino;
+/* remember the harness's own standard input: a command without input from the editor must not read it */
+static void verif_shell_init(void)
+{
+	struct stat st;
+	if (!fstat(0, &st)) {
+		verif_stdin_dev = st.st_dev;
+		verif_stdin_ino = st.st_ino;
+	}
+}
+static void verif_shell(const char *cmd)
+{
+	static char ibuf[1 << 20];
+	char buf[4096];
+	long n, w, k, len = 0;
+	int upper = !strcmp(cmd, "tr a-z A-Z");
+	struct stat st;
+	if (!fstat(0, &st) && st.st_dev == verif_stdin_dev && st.st_ino == verif_stdin_ino) {
+		int nul = open("/dev/null", O_RDONLY);	/* no input from the editor: the command sees none */
+		if (nul >= 0)
+			dup2(nul, 0);
+	}
+	if (!strcmp(cmd, "true"))
+		_exit(0);
+	if (!strcmp(cmd, "printf x")) {
+		syscall(SYS_write, 1, "x", 1);
+		_exit(0);
+	}
+	if (!strcmp(cmd, "cat") || upper) {
+		while ((n = syscall(SYS_read, 0, buf, sizeof(buf))) > 0) {
+			if (upper)
+				for (k = 0; k < n; k++)
+					if (buf[k] >= 'a' && buf[k] <= 'z')
+						buf[k] -= 32;
+			for (w = 0; w < n; w += k)
+				if ((k = syscall(SYS_write, 1, buf + w, n - w)) <= 0)
+					_exit(1);
+		}
+		_exit(0);
+	}
+	if (!strcmp(cmd, "sed 1q")) {		/* reads everything, prints the first line */
+		while (len < (long) sizeof(ibuf) && (n = syscall(SYS_read, 0, ibuf + len, sizeof(ibuf) - len)) > 0)
+			len += n;
+		for (k = 0; k < len && ibuf[k] != '\n'; k++)
+			;
+		if (k < len)
+			k++;
+		for (w = 0; w < k; w += n)
+			if ((n = syscall(SYS_write, 1, ibuf + w, k - w)) <= 0)
+				_exit(1);
+		_exit(0);
+	}
+	_exit(127);
+}
+
 #endif
